@@ -88,6 +88,8 @@ func checkCalls(pass *analysis.Pass, rules map[string]Check) (any, error) {
 			astcall = source.Call
 		case *ast.GoStmt:
 			astcall = source.Call
+		case *ast.RangeStmt:
+			// the implicit call of the iterator function in a range-over-func loop
 		case nil:
 			// TODO(dh): I am not sure this can actually happen. If it
 			// can't, we should remove this case, and also stop
